@@ -183,3 +183,30 @@ def beams_close(a, b, rtol=1e-12, atol=1e-15):
         if torch.any(bad):
             diffs.append((n, float((x - y).abs().max())))
     return diffs
+
+
+# ---------------------------------------------------------------- elements after a HISTORY of assignments (round 6)
+ASSIGNABLE_PLAIN = {"is_active", "tracking_method"}     # non-tensor attributes that are plain assignable fields
+
+
+def build_history(spec, dtype=torch.float64, warm_energy=None):
+    """Element of `spec` reached through a history instead of a fresh construction: it is CONSTRUCTED with spec["init_kw"]
+    (same keys as spec["kw"], other values), optionally used once (spec.get("warm"): transfer_map at `warm_energy`, so that
+    anything the element keeps from its first use is in place), and then every assignable key of spec["kw"] is re-assigned
+    through the public attribute / property setter, in the order spec.get("order") (default: the order of spec["kw"]), to the
+    FINAL value.  A spec without "init_kw" is built freshly (= build)."""
+    if "init_kw" not in spec:
+        return build(spec, dtype)
+    el = build({"cls": spec["cls"], "name": spec.get("name"), "kw": spec["init_kw"]}, dtype)
+    if spec.get("warm") and warm_energy is not None:
+        try:
+            el.transfer_map(torch.tensor(float(warm_energy), dtype=dtype))
+        except Exception:       # the initial state may be outside the domain (e.g. active cavity at low energy): not the subject
+            pass
+    for k in spec.get("order") or list(spec["kw"].keys()):
+        v = spec["kw"][k]
+        if k in TENSOR_KW and v is not None:
+            setattr(el, k, torch.tensor(v, dtype=dtype))
+        elif k in ASSIGNABLE_PLAIN:
+            setattr(el, k, v)
+    return el
